@@ -547,7 +547,7 @@ def c16_model_configs(tier):
     """every sequence of packets of ANY type (18 / 20 kinds incl. the ones the role must not receive) against armed
     and gated handlers, explored on the implementation-shaped model, replayed, validated event by event"""
     T, F = "TRUE", "FALSE"
-    q = 600 if tier == "quick" else 100000
+    q = 600 if tier == "quick" else 8000
     return [ep_config(f"m_v{ver}{role[0]}_any", quota=q, ver=ver, role=role, ids="Ids1", n=2 if tier == "quick" else 3,
                       kinds="KAny", outs="OErr", imm=T, gp=T if role == "server" else F)
             for ver in (3, 5) for role in ("server", "client")]
@@ -635,7 +635,7 @@ def c17_decode_for(ver, role, router, warm):
 def c17_configs(tier):
     T, F = "TRUE", "FALSE"
     n = 3 if tier == "quick" else 4
-    cs = [ep_config(f"m_v5{r[0]}", quota=700 if tier == "quick" else 100000, ver=5, role=r, ids="Ids12", n=n, kinds="KNone",
+    cs = [ep_config(f"m_v5{r[0]}", quota=700 if tier == "quick" else 8000, ver=5, role=r, ids="Ids12", n=n, kinds="KNone",
                     extra="XAlias" if tier == "quick" else "XAliasQ1", outs="OOk", imm=T, gp=F, am=2, strict=17)
           for r in ("server", "client")]
     L = 3 if tier == "quick" else 4
@@ -876,7 +876,7 @@ def c12_model_configs(tier):
     read, handler completions between arrivals; monitor composed in TLC, replayed, validated event by event"""
     T, F = "TRUE", "FALSE"
     n = 4 if tier == "quick" else 5
-    q = 350 if tier == "quick" else 100000
+    q = 350 if tier == "quick" else 6000
     return [
         ep_config("m_v3s_r1", quota=q, ver=3, role="server", ids="Ids123", n=n, kinds="KLim", extra="XBurst", outs="OOk", imm=F, gp=F, mr=1),
         ep_config("m_v3s_r2", quota=q, ver=3, role="server", ids="Ids123", n=n, kinds="KLim", extra="XBurstCtl", outs="OOk", imm=T, gp=T, mr=2),
@@ -1043,7 +1043,7 @@ def c07_model_configs(tier):
     gated / armed publish and control handlers, Stop handled at once or on command"""
     T, F = "TRUE", "FALSE"
     n = 3 if tier == "quick" else 4
-    q = 400 if tier == "quick" else 100000
+    q = 400 if tier == "quick" else 8000
     cs = []
     for ver in (3, 5):
         for role in ("server", "client"):
